@@ -182,9 +182,11 @@ func (s *sendStream) Send(m *hashmailrpc.CipherBox) error {
 			// gRPC reports the server's refusal on a later call;
 			// the message that triggered it is lost.
 			s.rejected = status.Error(codes.Unknown, "stream not found")
+			vrt.Event("relay refuses writer of " + r.nameOf(id) + ": stream not found")
 			return nil
 		case !released(b.writerCtx):
 			s.rejected = status.Error(codes.Unknown, "write stream occupied")
+			vrt.Event("relay refuses writer of " + r.nameOf(id) + ": write stream occupied")
 			return nil
 		}
 		b.writerCtx = s.ctx
@@ -260,6 +262,7 @@ func (s *recvStream) Recv() (*hashmailrpc.CipherBox, error) {
 			}
 			if s.failed != nil {
 				r.mu.Unlock()
+				vrt.Event("relay refuses reader of " + r.nameOf(s.id) + ": " + s.failed.Error())
 				return nil, s.failed
 			}
 			b.readerCtx = s.ctx
